@@ -39,7 +39,19 @@ const S2_STUB: &[&str] = &[
 ];
 const S2_BOUNDS: &str = "1-4 actors, <= 4 local states, <= 4 message tags, <= 3 timers, <= 3 random values, walks <= 80 steps, crash budget 0-2, history capped at 24 events";
 
+const S4_REAL: &[&str] = &[
+    "semantics::LinearizabilityTester and SequentialConsistencyTester (on_invoke/on_return/is_consistent/serialized_history, Clone)",
+    "SequentialSpec implementations Register, WORegister, Vec (invoke, is_valid_step, is_valid_history)",
+];
+const S4_STUB: &[&str] = &[
+    "the concurrent system producing the history: simulated client threads and a simulated shared object with seeded linearization points and injected faults (stale read, lost write, wrong return, duplicated reply, reply without request, re-invocation without waiting)",
+];
+const S4_BOUNDS: &str = "1-4 client threads, <= 8 operations, <= 4 in flight, <= 40 scheduling steps per history; specs: register, write-once register, vec (stack), test-and-set (default is_valid_step)";
+
 pub const PROPS: &[PropInfo] = &[
+    PropInfo { id: "C08", subsystem: "s4", runs: (30_000, 3_000_000), rule: "one case = one concurrent history produced by a seeded schedule of simulated clients against a (possibly faulty) simulated object, fed event by event to the real tester; invoke/return events are stamped with their global sequence number; distinct = distinct (spec, initial value, event list); non-trivial = >= 3 events", oracle: "after every event: is_consistent() == exhaustive search of the definition (all orders of the completed operations plus any subset of in-flight ones, per-thread order, real-time precedence, legal for the spec); serialized_history() is such an order; ill-formed events give Err and stay Err/false/None", real: S4_REAL, stub: S4_STUB, bounds: S4_BOUNDS },
+    PropInfo { id: "C14", subsystem: "s4", runs: (30_000, 3_000_000), rule: "as C08, both testers fed the same events", oracle: "as C08 without the real-time filter; every prefix accepted by the linearizability tester is accepted by the sequential-consistency tester; a clone taken before each event is unchanged after the original moved on", real: S4_REAL, stub: S4_STUB, bounds: S4_BOUNDS },
+    PropInfo { id: "C18", subsystem: "s4", runs: (30_000, 3_000_000), rule: "spec half: the operation sequence of a generated history is applied to the reference object; every step is checked with its actual return and a perturbed one; harness half: seeded walks of register-harness actor systems (RegisterActor / WORegisterActor clients, servers answering each request at most once) over all network kinds", oracle: "is_valid_step(op, r) == (invoke(op) == r) and equal object state after a valid step; is_valid_history == invoking from the initial object; per client at most one outstanding request with a fresh id; the recorded tester equals a shadow tester fed with exactly the client-visible sends and accepted replies, and never reports an ill-formed history", real: S4_REAL, stub: S4_STUB, bounds: S4_BOUNDS },
     PropInfo { id: "C04", subsystem: "s2", runs: (20_000, 2_000_000), rule: "one case = one seeded fault-heavy walk of a generated actor system; every reached state, a perturbed rebuild of it (shuffled insertion order, other hasher keys, spare capacity, remove+reinsert) and its neighbours (crash flag flipped, timer/choice moved to the adjacent actor, message removed) enter a pool together with container families (sets/maps side by side, nested, Vec<Timers>, VectorClock with trailing zeros, DenseNatMap); distinct = distinct state fingerprints reached; non-trivial = walk of >= 2 steps", oracle: "equal canonical dump => equal fingerprint; different dump => different sequence of typed Hasher calls; == <=> equal dump", real: S2_REAL, stub: S2_STUB, bounds: S2_BOUNDS },
     PropInfo { id: "C06", subsystem: "s2", runs: (20_000, 2_000_000), rule: "one case = one seeded walk (<= 80 steps) of a generated actor system in lockstep with the reference stepper; distinct = distinct state fingerprints reached; non-trivial = >= 2 steps taken", oracle: "at every step the set of effective (action, successor) pairs of the real model equals the reference's, component by component (actor state, network, timers, choices, crash flags, history order)", real: S2_REAL, stub: S2_STUB, bounds: S2_BOUNDS },
     PropInfo { id: "C07", subsystem: "s2", runs: (20_000, 2_000_000), rule: "as C06 with traffic-heavy systems: repeated identical messages, several per flow, initial network contents, drops and redeliveries", oracle: "network content == reference flows/multiset/set after every step; deliverable set, drop offers, len(), iter_all() (bounded consumption) and iter_deliverable() agree with the content", real: S2_REAL, stub: S2_STUB, bounds: S2_BOUNDS },
@@ -61,33 +73,50 @@ pub fn info(prop: &str) -> Option<&'static PropInfo> {
 }
 
 pub fn run_case(prop: &str, seed: u64) -> (RunReport, Value) {
+    if prop == "C18" {
+        // two halves: reference objects (S4) and register-harness systems (S2)
+        return if seed % 2 == 0 { crate::s4::run_case(prop, seed) } else { crate::s2::run_case(prop, seed) };
+    }
     match info(prop).map(|i| i.subsystem) {
         Some("s1") => crate::s1::run_case(prop, seed),
         Some("s2") => crate::s2::run_case(prop, seed),
+        Some("s4") => crate::s4::run_case(prop, seed),
         _ => panic!("unknown property {}", prop),
     }
 }
 
 pub fn replay(prop: &str, scenario: &Value) -> Result<RunReport, String> {
+    if prop == "C18" {
+        return if scenario.get("proto").is_some() { crate::s2::replay(prop, scenario) } else { crate::s4::replay(prop, scenario) };
+    }
     match info(prop).map(|i| i.subsystem) {
         Some("s1") => crate::s1::replay(prop, scenario),
         Some("s2") => crate::s2::replay(prop, scenario),
+        Some("s4") => crate::s4::replay(prop, scenario),
         _ => Err(format!("unknown property {}", prop)),
     }
 }
 
 pub fn summary(prop: &str, scenario: &Value) -> Value {
+    if prop == "C18" {
+        return if scenario.get("proto").is_some() { crate::s2::summary(scenario) } else { crate::s4::summary(scenario) };
+    }
     match info(prop).map(|i| i.subsystem) {
         Some("s1") => crate::s1::summary(scenario),
         Some("s2") => crate::s2::summary(scenario),
+        Some("s4") => crate::s4::summary(scenario),
         _ => Value::Null,
     }
 }
 
 pub fn shrink_candidates(prop: &str, scenario: &Value) -> Vec<Value> {
+    if prop == "C18" {
+        return if scenario.get("proto").is_some() { crate::s2::shrink_candidates(scenario) } else { crate::s4::shrink_candidates(scenario) };
+    }
     match info(prop).map(|i| i.subsystem) {
         Some("s1") => crate::s1::shrink_candidates(scenario),
         Some("s2") => crate::s2::shrink_candidates(scenario),
+        Some("s4") => crate::s4::shrink_candidates(scenario),
         _ => vec![],
     }
 }
